@@ -2,6 +2,8 @@
    proof files; the driver pins the statements with [Check] and prints the
    assumptions on every run. *)
 From Yv Require Import Common.Base C06.Model C06.Spec C06.Proofs.
+From Coq Require Ascii String.
+Import Coq.Strings.String.StringSyntax.
 
 (* The parser model is total: with the fuel computed from the length of the
    text (16 * length + 16) it answers with a tree or a syntax error -- or
@@ -59,6 +61,57 @@ Theorem lex_word_print_same : forall inner : str -> res (str * str),
   lex_units inner f cx d s = Ok (w, r) -> ok_word w = true -> d <> DDQuote ->
   lex_units inner (S (S f)) cx d (print_word w ++ r) = Ok (w, r).
 Proof. exact lex_units_print_same. Qed.
+
+(* the restriction [ok_word] cannot be dropped (known finding F14): with the
+   model of the real parser as [inner], the word `$(('(' ) )` is lexed to a
+   command substitution, but its printed form followed by `)` is not lexed
+   back to it *)
+Theorem lex_word_print_refuted :
+  let inner := p_inner 200 in
+  let s := lit "$(('(' ) ) " in
+  let z := lit ")" in
+  exists w r,
+    lex_units inner 200 CWord DToken s = Ok (w, r) /\ ok_word w = false /\
+    nolc z /\ stops DToken z /\ last_fo_word CWord DToken w (hd z) /\
+    lex_units inner 202 CWord DToken (print_word w ++ z) <> Ok (w, z).
+Proof. exact lex_units_print_refuted_witness. Qed.
+
+(* lex_token_print: a word token (any token that is not an operator or the end
+   of input) is read back from its printed form followed by a text that does
+   not extend it; its kind (keyword, IO_NUMBER, IO_LOCATION, plain word) is
+   then decided by the word and the first character of that text alone *)
+Theorem lex_token_print : forall inner : str -> res (str * str),
+  (forall s content r0 r0', inner s = Ok (content, r0) -> skip_lc r0 = c_rparen :: r0' ->
+     forall z, inner (content ++ c_rparen :: z) = Ok (content, c_rparen :: z)) ->
+  forall f s t r,
+  lex_token inner f s = Ok (t, r) -> t_word t <> [] ->
+  exists w,
+    t_word t = tilde_front w /\
+    (ok_word w = true ->
+     forall z, nolc z -> stops DToken z -> last_fo_word CWord DToken w (hd z) ->
+       lex_token inner (S (S f)) (print_word (t_word t) ++ z)
+       = Ok (mkToken (t_word t) (token_id_of (t_word t) z) (print_word (t_word t) ++ z), z)).
+Proof. exact lex_token_print_lemma. Qed.
+
+(* operator spacing: an operator is read back from its text whenever the next
+   character does not turn it into a longer operator *)
+Theorem lex_operator_print : forall o z,
+  nolc z -> op_follow_ok o (hd z) -> lex_operator (print_op o ++ z) = Some (o, z).
+Proof. exact lex_operator_print_lemma. Qed.
+
+(* the answer of the parser model is a function of the text alone: every fuel
+   above the one computed from the length gives the same answer *)
+Theorem parse_more_fuel : forall s f,
+  (parse_fuel s <= f)%nat -> p_mcl f s = p_mcl (parse_fuel s) s.
+Proof. exact parse_more_fuel_lemma. Qed.
+
+(* known finding F14 at the level of programs: the statement "the printed text
+   of a parsed tree parses back to the tree" is false of the model (which
+   mirrors the implementation) for a tree of the class [f14_class] *)
+Theorem parse_print_refuted :
+  exists s t, parse_program s = Ok t /\ f14_class t = true /\
+              parse_program (print_list false t) <> Ok t.
+Proof. exact parse_print_refuted_lemma. Qed.
 
 Theorem oracle_err : forall s, oracle PErr s = None.
 Proof. exact oracle_accepts_errors. Qed.
